@@ -814,8 +814,11 @@ def rule_worklist_mark(P, scope=None):
                 if isinstance(c, ast.Call) and isinstance(c.func, ast.Attribute) and c.func.attr in ("append", "add") and W_.is_name(c.func.value, stack):
                     for ft in W_.guard_facts(c):
                         t = ft.test
+                        # mark-on-push discipline: the guard tests the very element that is pushed (`if Q not in visited: stack.append(Q)`);
+                        # agendas that de-duplicate when an item is popped follow a different, equally valid discipline and are not instances
                         if isinstance(t, ast.Compare) and len(t.ops) == 1 and isinstance(t.comparators[0], ast.Name) and W_._within(ft.origin, wl) and \
-                                ((ft.pol and isinstance(t.ops[0], ast.NotIn)) or (not ft.pol and isinstance(t.ops[0], ast.In))):
+                                ((ft.pol and isinstance(t.ops[0], ast.NotIn)) or (not ft.pol and isinstance(t.ops[0], ast.In))) and c.args \
+                                and norm(t.left) == norm(c.args[0]):
                             vis = t.comparators[0].id
             if vis is None or vis == stack:
                 continue
@@ -842,7 +845,7 @@ def rule_worklist_mark(P, scope=None):
                 if bulk and W_.pos(st) < W_.pos(wl) and not W_._within(st, wl):
                     r.add(f, st, True, slots=dict(worklist=stack, visited=vis, marked=f"{vis} = set({stack})"))
                     continue
-                xs = x.args[0] if isinstance(x, ast.Call) and W_.call_name(x) in ("set", "list", "tuple", "sorted", "frozenset") and len(x.args) == 1 else x
+                xs = x.args[0] if isinstance(x, ast.Call) and W_.call_name(x) in ("set", "list", "tuple", "sorted", "frozenset", "deque") and len(x.args) == 1 else x
                 if W_.is_name(xs, vis) and not W_._within(st, wl):
                     r.add(f, st, True, slots=dict(worklist=stack, visited=vis, marked=f"seeded from {vis} itself"))
                     continue
